@@ -18,6 +18,9 @@ pub enum Cmd {
     UseDbOk,
     UseDbBad,
     UseDbUser,
+    /// select the second database (a session that watched a key of the first one keeps that subscription until it
+    /// ends -- and must lose it then)
+    UseDbSecond,
     Get { key: String },
     GetSafe { key: String },
     Set { key: String, val: String },
@@ -73,7 +76,13 @@ fn gen_one(rng: &mut Rng, ws: bool) -> Program {
             1 => Cmd::AuthBad,
             2..=4 => Cmd::UseDbOk,
             5 => Cmd::UseDbBad,
-            6 => Cmd::UseDbUser,
+            6 => {
+                if rng.chance(1, 2) {
+                    Cmd::UseDbUser
+                } else {
+                    Cmd::UseDbSecond
+                }
+            }
             7 | 8 => Cmd::Get { key },
             9 => Cmd::GetSafe { key },
             10 | 11 => {
@@ -103,6 +112,7 @@ fn render(c: &Cmd, side: &str) -> String {
         Cmd::UseDbOk => format!("use-db {}db tok", side),
         Cmd::UseDbBad => format!("use-db {}db nope", side),
         Cmd::UseDbUser => format!("use-db {}db u1 pw1", side),
+        Cmd::UseDbSecond => format!("use-db {}db2 tok2", side),
         Cmd::Get { key } => format!("get {}", key),
         Cmd::GetSafe { key } => format!("get-safe {}", key),
         Cmd::Set { key, val } => format!("set {} {}", key, val),
@@ -141,6 +151,16 @@ fn prepare(dbs: &Arc<Databases>, side: &str) -> bool {
     a.exec("create-user u1 pw1");
     a.exec("set-permissions u1 r k*");
     a.disconnect();
+    let mut a = Session::admin(dbs);
+    if a.exec(&format!("create-db {}db2 tok2 none", side)).resp.is_err() {
+        return false;
+    }
+    a.exec(&format!("use-db {}db2 tok2", side));
+    a.exec("set ka second-a");
+    a.exec("set kb second-b");
+    a.exec("set txt second");
+    a.exec("set n 7");
+    a.disconnect();
     true
 }
 
@@ -151,6 +171,7 @@ fn kind(c: &Cmd) -> &'static str {
         Cmd::UseDbOk => "use-db-ok",
         Cmd::UseDbBad => "use-db-bad",
         Cmd::UseDbUser => "use-db-user",
+        Cmd::UseDbSecond => "use-db-second",
         Cmd::Get { .. } => "get",
         Cmd::GetSafe { .. } => "get-safe",
         Cmd::Set { .. } => "set",
@@ -299,25 +320,25 @@ fn execute(prog: Program) -> Outcome {
     }
     // the request's session is gone: no connection counted, no watcher left
     sleep_ms(5);
-    let ran_use_db = prog.cmds.iter().any(|c| matches!(c, Cmd::UseDbOk | Cmd::UseDbUser));
-    {
+    let ran_use_db = prog.cmds.iter().any(|c| matches!(c, Cmd::UseDbOk | Cmd::UseDbUser | Cmd::UseDbSecond));
+    for (dbname, two) in [("hdb", ""), ("hdb2", ":second-database")] {
         let map = dbs.map.read().unwrap();
-        if let Some(db) = map.get(&"hdb".to_string()) {
+        if let Some(db) = map.get(&dbname.to_string()) {
             let c = db.connections_count();
             if c != 0 {
-                out.violations.push(Violation::new("session-not-released", "connections".to_string(), format!("body {:?}: {} connections still counted on hdb after the request ended", body, c)));
+                out.violations.push(Violation::new("session-not-released", format!("connections{}", two), format!("body {:?}: {} connections still counted on {} after the request ended", body, c, dbname)));
             }
             // ... and the published counter says the same (what other clients and watchers see)
             let published = db.get_value("$connections".to_string()).map(|v| v.value);
             if let Some(p) = published {
                 if p.trim() != "0" && ran_use_db {
-                    out.violations.push(Violation::new("session-not-released", "published-counter".to_string(), format!("body {:?}: $connections of hdb reads {:?} after the request ended", body, p)));
+                    out.violations.push(Violation::new("session-not-released", format!("published-counter{}", two), format!("body {:?}: $connections of {} reads {:?} after the request ended", body, dbname, p)));
                 }
             }
             let wm = db.watchers.map.read().unwrap();
             let left: usize = wm.values().map(|v| v.len()).sum();
             if left != 0 {
-                out.violations.push(Violation::new("session-not-released", "watchers".to_string(), format!("body {:?}: {} watcher registrations left", body, left)));
+                out.violations.push(Violation::new("session-not-released", format!("watchers{}", if prog.cmds.iter().any(|c| matches!(c, Cmd::UseDbSecond)) { ":two-databases" } else { two }), format!("body {:?}: {} watcher registrations left in {}", body, left, dbname)));
             }
         }
     }
